@@ -1,8 +1,9 @@
 // C03 harness, container level: the REAL .xz decoders of liblzma on hand-built files (public API only).
 //
 //   xz <api> <flags> <reuse> <inslices> <outslices> <orighex> <filehex>
-//     api  sd   lzma_stream_decoder(memlimit 160 MiB, flags) + lzma_code loop
+//     api  sd   lzma_stream_decoder(no memory limit, flags) + lzma_code loop
 //          sbd  lzma_stream_buffer_decode(flags)
+//          alone lzma_alone_decoder (.lzma files; flags ignored)
 //          blk  lzma_block_header_decode + lzma_block_decoder + lzma_code loop; <flags> is the Check ID of the Stream
 //     reuse 1: run on the ONE persistent lzma_stream of this process, which is re-initialised by this case's init function
 //              without lzma_end (the previous case ended in success, an error, or was abandoned); 0: fresh handle
@@ -14,11 +15,12 @@
 //     blk: consumed counts the Block Header too (0 if the header itself is rejected)
 #include "hproto.h"
 #include <lzma.h>
+#include "c03_alloc.h"
 
 #define OUTCAP ((size_t)8 << 20)
-#define MEMLIMIT ((uint64_t)160 << 20)
+#define MEMLIMIT UINT64_MAX     // memory limits are C09's subject; here even a 4 GiB dictionary must be allowed
 static uint8_t *g_out;
-static lzma_stream g_strm = LZMA_STREAM_INIT;
+static lzma_stream g_strm = LZMA_STREAM_INIT;   // .allocator is set in main()
 
 static uint64_t g_tab[256];
 static uint64_t crc64_of(const uint8_t *p, size_t n)
@@ -100,6 +102,7 @@ int main(void)
 	g_out = malloc(OUTCAP);
 	if (g_out == NULL) return 3;
 	hp_line l = {0};
+	g_strm.allocator = &c03_allocator;
 	while (hp_next(&l)) {
 		if (strcmp(l.tok[0], "xz") != 0 || l.ntok != 8) { printf("bad-op\n"); continue; }
 		const char *api = l.tok[1];
@@ -109,6 +112,7 @@ int main(void)
 		size_t n; uint8_t *in = hp_hex(l.tok[7], &n);
 		result r; memset(&r, 0, sizeof(r));
 		lzma_stream fresh = LZMA_STREAM_INIT;
+		fresh.allocator = &c03_allocator;
 		lzma_stream strm = reuse ? g_strm : fresh;
 		bool used_stream = false;
 		if (!strcmp(api, "sd")) {
@@ -116,11 +120,16 @@ int main(void)
 			lzma_ret ret = lzma_stream_decoder(&strm, MEMLIMIT, flags);
 			if (ret != LZMA_OK) r.ret = (int)ret;
 			else drive(&strm, in, n, l.tok[4], l.tok[5], &r);
+		} else if (!strcmp(api, "alone")) {
+			used_stream = true;
+			lzma_ret ret = lzma_alone_decoder(&strm, MEMLIMIT);
+			if (ret != LZMA_OK) r.ret = (int)ret;
+			else drive(&strm, in, n, l.tok[4], l.tok[5], &r);
 		} else if (!strcmp(api, "sbd")) {
 			static const uint8_t empty[1] = {0};
 			uint64_t memlimit = MEMLIMIT;
 			size_t ip = 0, op = 0;
-			r.ret = (int)lzma_stream_buffer_decode(&memlimit, flags, NULL, n ? in : empty, &ip, n, g_out, &op, OUTCAP);
+			r.ret = (int)lzma_stream_buffer_decode(&memlimit, flags, &c03_allocator, n ? in : empty, &ip, n, g_out, &op, OUTCAP);
 			r.consumed = ip; r.outlen = op;
 		} else if (!strcmp(api, "blk") && n >= 1 && in[0] != 0 && n >= lzma_block_header_size_decode(in[0])) {
 			used_stream = true;
@@ -130,7 +139,7 @@ int main(void)
 			block.check = (lzma_check)flags;
 			block.header_size = lzma_block_header_size_decode(in[0]);
 			block.filters = filters;
-			lzma_ret ret = lzma_block_header_decode(&block, NULL, in);
+			lzma_ret ret = lzma_block_header_decode(&block, &c03_allocator, in);
 			if (ret != LZMA_OK) {
 				r.ret = (int)ret;
 			} else {
@@ -140,7 +149,7 @@ int main(void)
 					drive(&strm, in + block.header_size, n - block.header_size, l.tok[4], l.tok[5], &r);
 					r.consumed += block.header_size;
 				}
-				lzma_filters_free(filters, NULL);
+				lzma_filters_free(filters, &c03_allocator);
 			}
 		} else {
 			printf("bad-op\n"); free(orig); free(in); continue;
